@@ -302,4 +302,35 @@ func init() {
 		Technique: "runtime monitoring: differential oracle (parser vs NewPacket; reused vs fresh objects) with canonical signatures",
 		DesignRef: "DESIGN.md §3 C05",
 	})
+	add(Spec{
+		PropSpec: vlib.PropSpec{
+			ID: "C06", Level: "exploration",
+			Rule: "roundtrip phase: layer values x = every serializable layer of every error-free packet obtained by decoding corpus inputs (fixtures, capture files, constructed packets, their mutations) as each registered layer type; payload P = the layer's decoded payload. Part A: bytes(x, no fixing) decoded as x's type must give the same exported field values at every depth (lists in order) and the same payload. Part B (the statement): b1 = bytes(x, FixLengths+ComputeChecksums) must decode as x's type with no error, no truncation flag and payload P; the decoded layer L1 written again must give exactly b1, and decodes to the same field values. stacks phase: constructed Ethernet stacks (VLAN, IPv4 with options, IPv6 with extension headers, TCP with options, UDP, ICMPv4/6 incl. NDP options, DNS, ARP, GRE, VXLAN, SCTP ...) are decoded, written with SerializeLayers, decoded (same layer types, same fields, no truncation), and SerializePacket of that packet must reproduce the bytes. Non-trivial = round trip with a non-empty payload; distinct by (type, fields, payload) hash.",
+			Assumptions: []string{"field comparison covers exported fields; Contents/Payload of the embedded BaseLayer are compared as bytes through the round trip, not as struct fields", "transport checksums use the enclosing IPv4/IPv6 layer of the source packet as pseudo-header"},
+			Phases: []vlib.Phase{
+				{Name: "roundtrip", Bin: "vchild", Quick: 16, Thorough: 16},
+				{Name: "stacks", Bin: "vchild", Quick: 16, Thorough: 16},
+			},
+			Require: []string{"part_B_roundtrips", "stacks_round_tripped"},
+		},
+		LevelText: "Runtime monitoring with a round-trip oracle: decode(serialize(x)) against x (canonical signatures of exported fields), serialize(decode(b)) against b, over layer values harvested from decoding and mutation of a fixture/capture/constructed corpus for every registered layer type.",
+		LevelNote: trusted,
+		Technique: "runtime monitoring: round-trip oracle (serialize->decode->serialize fixpoint) with canonical field signatures over corpus-harvested layer values",
+		DesignRef: "DESIGN.md §3 C06",
+	})
+	add(Spec{
+		PropSpec: vlib.PropSpec{
+			ID: "C07", Level: "exploration",
+			Rule: "buffers phase: every serializable layer that decoding any corpus input (incl. mutated inputs whose packet ends in an error layer) produced is written, for each of the four FixLengths/ComputeChecksums combinations, from identical deep copies into: a fresh buffer, a buffer pre-sized with PRNG (prepend, append) sizes, a pre-sized (0,0) buffer, a buffer that held 2048+2048 bytes of 0xAA/0x55 and was cleared, two poisoned buffers (a SerializeBuffer implementation that fills every returned slice with 0xA5 resp. 0x5A - a never-written byte differs between the two), and the same struct twice. A panic in any of them is a violation (keyed by panic site); all must agree on error-or-not and, when no error, on the bytes. Built with -d=checkptr. Non-trivial = output longer than payload+4; distinct by (type, output, payload length).",
+			Assumptions: []string{"layer values built through public fields are represented by the values decoding of mutated inputs produces (which includes out-of-range and inconsistent length fields)"},
+			Phases: []vlib.Phase{
+				{Name: "buffers", Bin: "vchild", Quick: 16, Thorough: 16},
+			},
+			Require: []string{"serializations_compared"},
+		},
+		LevelText: "Runtime monitoring: panic monitor plus a differential oracle over serialize-buffer histories, including poisoned buffers that expose requested-but-unwritten bytes (MSan-style), on layer values harvested from decoding hostile inputs; checkptr instrumentation.",
+		LevelNote: trusted,
+		Technique: "runtime monitoring: panic monitor + buffer-history differential with poisoned SerializeBuffer (uninitialised-byte detector), checkptr build",
+		DesignRef: "DESIGN.md §3 C07",
+	})
 }
